@@ -86,6 +86,7 @@ type Ctx struct {
 	Workers    int
 	counters   map[string]*atomic.Int64
 	dumpf      *os.File
+	allFails   []*Fail
 	batchPanics atomic.Int64
 	reported    atomic.Int64
 }
@@ -296,6 +297,9 @@ func (c *Ctx) Report(f *Fail, cs any, rerun func() *Fail) {
 		return
 	}
 	c.nviol++
+	if os.Getenv("VERIF_EMIT_FINDINGS") != "" {
+		c.allFails = append(c.allFails, f)
+	}
 	if len(c.violations) >= 200 {
 		return
 	}
@@ -316,14 +320,25 @@ func (c *Ctx) emitFindings() {
 		return
 	}
 	defer out.Close()
-	for _, v := range c.violations {
-		k, _ := json.Marshal(v.Fail.Key)
-		fmt.Fprintf(out, "finding: property=%s class=%s key=%s what=%s\n", c.ID, class, k, v.Fail.Msg)
+	sort.Slice(c.allFails, func(i, j int) bool { return c.allFails[i].Key < c.allFails[j].Key })
+	for _, f := range c.allFails {
+		k, _ := json.Marshal(f.Key)
+		cl := class
+		if f.Class != "" {
+			cl = strings.ReplaceAll(f.Class, " ", "-")
+		}
+		fmt.Fprintf(out, "finding: property=%s class=%s key=%s what=%s\n", c.ID, cl, k, oneLine(f.Msg))
 	}
 }
 
+// AtExit, if set, runs at the start of Finish (profiling aid).
+var AtExit func()
+
 // Finish writes the evidence file, prints the verdict lines and exits.
 func (c *Ctx) Finish(exhaustive bool) {
+	if AtExit != nil {
+		AtExit()
+	}
 	if c.Replay != "" {
 		if c.nviol > 0 {
 			for _, v := range c.violations {
